@@ -202,6 +202,10 @@ func (m *StringifiedMessage) encode(d *Decoder, sb *strings.Builder, tagType byt
 		if listLen < 0 {
 			return errors.New("list length less than 0")
 		}
+		if listType == TagEnd && listLen > 0 {
+			// TAG_End has no payload: its "elements" would be decoded without consuming anything
+			return errors.New("non-empty list of TAG_End")
+		}
 		if listType > TagLongArray {
 			// the element decoder is only asked per element: an empty list has to be checked here
 			return fmt.Errorf("unknown list element type %#02x", listType)
